@@ -45,7 +45,7 @@ func ParseRaceLogs(prefix string) []RaceReport {
 				case strings.HasPrefix(line, "      "): // file:line
 				case strings.HasPrefix(line, "  ") && !strings.HasPrefix(line, "   "):
 					fn := strings.TrimSpace(line)
-					if i := strings.IndexByte(fn, '('); i > 0 {
+					if i := strings.LastIndexByte(fn, '('); i > 0 { // "pkg.(*T).M()": the argument list is the last "("
 						fn = fn[:i]
 					}
 					if cur == nil {
